@@ -277,3 +277,29 @@ Print Assumptions c19_run_with_flushes_never_reads_values.
 Theorem c19_run_with_flushes_example : exists s, seq3_start ex3_file = Some s /\ inv3 s /\ disj3 s.
 Proof. exact LazySeq3Proofs.seq3_example_inv. Qed.
 Print Assumptions c19_run_with_flushes_example.
+
+(* a Flush is invisible to the ReadAt calls of a whole LIST of lookups and GetTotals that follows it, and to one whole visit
+   right after it; it is NOT invisible to the call after such a visit (the visit evicted the flushed items, the next call
+   reads them back): the statement cannot be extended to sequences containing visits *)
+From GK Require Import LazySeq3More.
+Theorem c19_lookups_after_flush_read_the_same : forall cmp name s ops,
+  (forall t, cs_get name (ss_colls s) = Some t -> rep (ss_file s) t /\ below t (ss_size s)) ->
+  forallb lookup_op2 ops = true ->
+  srun3 cmp name (snd (sstep3 cmp name s SFlush)) (map S2 ops) = srun3 cmp name s (map S2 ops).
+Proof. exact LazySeq3More.lookups_after_flush_same_reads. Qed.
+Print Assumptions c19_lookups_after_flush_read_the_same.
+
+Theorem c19_visit_after_flush_reads_the_same : forall cmp name s asc target wv b,
+  (forall t, cs_get name (ss_colls s) = Some t -> rep (ss_file s) t /\ below t (ss_size s)) ->
+  fst (sstep3 cmp name (snd (sstep3 cmp name s SFlush)) (S2 (SVis asc target wv b))) =
+  fst (sstep3 cmp name s (S2 (SVis asc target wv b))).
+Proof. exact LazySeq3More.visit_after_flush_same_reads. Qed.
+Print Assumptions c19_visit_after_flush_reads_the_same.
+
+Theorem c19_call_after_visit_after_flush_differs :
+  exists cmp name s asc target wv b k wv',
+    (forall t, cs_get name (ss_colls s) = Some t -> rep (ss_file s) t /\ below t (ss_size s)) /\
+    srun3 cmp name (snd (sstep3 cmp name s SFlush)) [S2 (SVis asc target wv b); S2 (S1 (SGet k wv'))] <>
+    srun3 cmp name s [S2 (SVis asc target wv b); S2 (S1 (SGet k wv'))].
+Proof. exact LazySeq3More.visit_after_flush_then_lookup_rereads. Qed.
+Print Assumptions c19_call_after_visit_after_flush_differs.
